@@ -46,8 +46,7 @@ structure Consts where
   recoverStatus : Nat
   prefixIsLiteral : Bool
   prefixLiteral : String
-  muxHandleCalls : Nat
-  muxPatternTrailingSlash : Bool
+  muxPatterns : List Bool
   respStatusSet : List (String × Nat)
 deriving Repr
 
@@ -72,8 +71,7 @@ def constsV2 : Consts where
   recoverStatus := Gen.Routing.recoverStatus
   prefixIsLiteral := Gen.Routing.prefixIsLiteral
   prefixLiteral := Gen.Routing.prefixLiteral
-  muxHandleCalls := Gen.Routing.muxHandleCalls
-  muxPatternTrailingSlash := Gen.Routing.muxPatternTrailingSlash
+  muxPatterns := Gen.Routing.muxPatterns
   respStatusSet := Gen.Routing.respStatusSet
 
 def constsRoot : Consts where
@@ -97,8 +95,7 @@ def constsRoot : Consts where
   recoverStatus := GenRoot.Routing.recoverStatus
   prefixIsLiteral := GenRoot.Routing.prefixIsLiteral
   prefixLiteral := GenRoot.Routing.prefixLiteral
-  muxHandleCalls := GenRoot.Routing.muxHandleCalls
-  muxPatternTrailingSlash := GenRoot.Routing.muxPatternTrailingSlash
+  muxPatterns := GenRoot.Routing.muxPatterns
   respStatusSet := GenRoot.Routing.respStatusSet
 
 /-! ## Statuses, looked up in the regenerated table by call site (`<func>: <format>`).
@@ -108,6 +105,9 @@ def Consts.st (C : Consts) (site : String) : Nat := (C.errStatuses.lookup site).
 
 def Consts.stInvalidSegment (C : Consts) := C.st "receive: Invalid path segment %q: %s"
 def Consts.stUnknownSub (C : Consts) := C.st "receive: Unknown sub resource: %q"
+def Consts.stInvalidQuery (C : Consts) := C.st "receive: Invalid query: %s"
+def Consts.stNilResult (C : Consts) := C.st "receive: %q returned a nil result and no error"
+def Consts.stNilActionResult (C : Consts) := C.st "registerAction: Action %q returned a nil result and no error"
 def Consts.stPostNeedsHeader (C : Consts) := C.st "receive: Header %q is required for POST requests"
 def Consts.stNoEntity (C : Consts) := C.st "receive: No entity provided for %q method"
 def Consts.stEntityForbidden (C : Consts) := C.st "receive: Cannot provide an entity for %q"
@@ -231,10 +231,8 @@ inductive Resolved where
   /-- a handler was found; `ownKey` = the closure's path decoder reads this node's own entity key
   (meaningful for actions only; for the other methods entity presence was validated) -/
   | ok (f : Facts) (ownKey : Bool)
-  /-- `newErrorResponsef(nil, status, …)` -/
+  /-- `newErrorResponsef(…, status, …)` -/
   | errResp (status : Nat)
-  /-- `ParseQueryParams` failed: the raw error is returned -/
-  | rawErr
 deriving Repr
 
 /-- `case Method_get, Method_delete, Method_update, Method_partial_update: if !hasEntity` -/
@@ -309,7 +307,7 @@ def resolveWith (C : Consts) (n : Node) (rpath : List Seg) (keys : List String) 
 def resolve (C : Consts) (V : String → Bool) (n : Node) (rpath : List Seg) (keys : List String)
     (hasEntity : Bool) (req : Req) : Resolved :=
   let m0 := nameMapping C ((req.headers.lookup C.methodHeader).getD "")
-  if !(req.query.all fun kv => V kv.2) then .rawErr else
+  if !(req.query.all fun kv => V kv.2) then .errResp C.stInvalidQuery else   -- `ParseQueryParams` failed
   resolveWith C n rpath keys hasEntity req.verb m0
     ((lookupLast C.paramFinder req.query).getD "") ((lookupLast C.paramAction req.query).getD "")
     (lookupLast C.paramIds req.query).isSome
@@ -321,7 +319,6 @@ inductive RouteX where
   /-- `http.NotFound` before anything else: no Rest.li header at all -/
   | rootNotFound
   | errResp (status : Nat)
-  | rawErr
 deriving Repr
 
 /-- root lookup (`r.subNodes[segments[0]]`), walk, resolve -/
@@ -338,7 +335,6 @@ def routeX (C : Consts) (V : String → Bool) (roots : List Node) (req : Req) : 
         match resolve C V n rpath keys hasEntity req with
         | .ok f ownKey => .routed f ownKey hasEntity
         | .errResp st => .errResp st
-        | .rawErr => .rawErr
 
 /-- the decision, with the response detail erased -/
 def route (C : Consts) (V : String → Bool) (roots : List Node) (req : Req) : Decision :=
@@ -346,7 +342,6 @@ def route (C : Consts) (V : String → Bool) (roots : List Node) (req : Req) : D
   | .routed f _ _ => .routed f
   | .rootNotFound => .reject C.stRootNotFound
   | .errResp st => .reject st
-  | .rawErr => .reject C.stPlainError
 
 /-! ## filters and the registered closure -/
 
@@ -391,12 +386,13 @@ def runPost (filters : List FilterKind) (seen : List Nat) : List Event × Option
   runPostRev seen (indexed filters 0).reverse
 
 /-- `h(ctx, segmentReaders(entitySegments), body)`: the closure built by `registerMethod*`,
-`registerFinder`, `registerAction`. The generated path decoder of an entity-level action indexes the
-key slice without looking at its length: without an entity key that is a panic, recovered by
-`receive`'s deferred function into an `ErrorResponse`. -/
+`registerFinder`, `registerAction`. The generated path decoder compares the number of entity keys it
+is handed with the number its method level needs: an entity-level action without a key, or a
+resource-level action with one, fails to decode like any other undecodable path (`receive` itself
+does not check entity presence for actions, so the filters have run by then). -/
 def runHandler (C : Consts) (f : Facts) (ownKey hasEntity : Bool) (req : Req) (seen : List Nat) :
     List Event × Option Fail × Nat :=
-  if f.method = .action && ownKey && !hasEntity then ([], some (.errResp C.recoverStatus), 0)
+  if f.method = .action && ownKey != hasEntity then ([], some (.errResp (C.stDecode f.method)), 0)
   else if !req.decodes.contains f.method then ([], some (.errResp (C.stDecode f.method)), 0)
   else if !req.implOk then ([.invoke f seen], some (.errResp (C.stImplFailed f.method)), 0)
   else ([.invoke f seen], none, C.stSuccess f.method)
@@ -420,7 +416,6 @@ def serveSegs (C : Consts) (V : String → Bool) (h : Handler) (req : Req) : Out
   match routeX C V h.roots req with
   | .rootNotFound => ⟨C.stRootNotFound, [], []⟩
   | .errResp st => respond C [] (some (.errResp st)) 0
-  | .rawErr => respond C [] (some .plain) 0
   | .routed f ownKey hasEntity =>
     match runPre f h.filters 0 [] with
     | (pre, _, some e) => respond C pre (some e) 0
@@ -453,16 +448,17 @@ def stripPrefix : List Char → List Char → Option (List Char)
   | _ :: _, [] => none
   | p :: ps, c :: cs => if p = c then stripPrefix ps cs else none
 
-/-- the request as `net/http` hands it over: `URL.RawPath`, `URL.Path` and everything else -/
+/-- the request as `net/http` hands it over: `URL.EscapedPath()` (the path as sent: `RawPath` when it
+is a valid encoding of `Path`, else `Path` re-escaped — `net/url`'s business), `URL.Path` (which
+`http.ServeMux` matches on) and everything else -/
 structure RawReq where
-  rawPath : String
+  escapedPath : String
   urlPath : String
   rest : Req
 deriving Repr
 
 def serveHTTP (C : Consts) (V : String → Bool) (h : Handler) (raw : RawReq) : Outcome :=
-  let path := if raw.rawPath = "" then raw.urlPath else raw.rawPath
-  match stripPrefix h.pfx.toList path.toList with
+  match stripPrefix h.pfx.toList raw.escapedPath.toList with
   | none => ⟨C.stRootNotFound, [], []⟩
   | some p => serveSegs C V h { raw.rest with path := (splitSlash p).map String.ofList }
 
@@ -483,8 +479,8 @@ def normalisePrefix (p : String) : String :=
   let p := if p = "" then "/" else p
   if p.toList.getLast? = some '/' then p else p ++ "/"
 
-/-- `NewPrefixedServer`: what ends up in `rootNode.prefix` is read off the source by the extractor —
-today the literal `"/"`, i.e. the computed prefix is discarded. -/
+/-- `NewPrefixedServer`: what ends up in `rootNode.prefix` is read off the source by the extractor
+(the normalised prefix; a literal there would mean the computed prefix is discarded). -/
 def newPrefixedServer (C : Consts) (p : String) (filters : List FilterKind) : Server :=
   { pfx := if C.prefixIsLiteral then C.prefixLiteral else normalisePrefix p, filters := filters,
     root := .mk "" false [] [] [] [] }
@@ -558,14 +554,16 @@ structure Mux where
   handler : Handler
 deriving Repr
 
-/-- `h := r.Handler(); for rootResource := range r.subNodes { mux.Handle(r.prefix+rootResource, h) }`.
-Only prefixes made of `/`-separated segments are representable; `"/"` gives no extra segment. -/
+/-- `h := r.Handler(); for rootResource := range r.subNodes { mux.Handle(r.prefix+rootResource, h);
+mux.Handle(r.prefix+rootResource+"/", h) }` — one pattern per `mux.Handle` call in the source
+(`muxPatterns`, regenerated). Only prefixes made of `/`-separated segments are representable. -/
 def addToMux (C : Consts) (s : Server) : Mux :=
   let pre := ((splitSlash s.pfx.toList).map String.ofList).filter (· != "")
-  { patterns := s.roots.map fun n => (pre ++ [n.name], C.muxPatternTrailingSlash), handler := s.handler }
+  { patterns := s.roots.flatMap fun n => C.muxPatterns.map fun subtree => (pre ++ [n.name], subtree),
+    handler := s.handler }
 
 inductive MuxResult where
-  /-- `ServeMux` redirects to the cleaned path -/
+  /-- `ServeMux` redirects to the cleaned path (or from `/tree` to `/tree/`) -/
   | redirect
   /-- `ServeMux`'s own "404 page not found" -/
   | notFound
@@ -580,8 +578,9 @@ def isPrefixSegs : List String → List String → Bool
   | a :: as, b :: bs => a == b && isPrefixSegs as bs
 
 /-- `ServeMux.ServeHTTP` for a request whose URL path is `/` followed by `segs` joined with `/`:
-redirect when cleaning the path would change it (an empty segment anywhere but at the end), exact
-patterns match the whole path, subtree patterns any extension of it. -/
+redirect when cleaning the path would change it (an empty segment anywhere but at the end); an
+exact pattern matches the whole path; a subtree pattern `/tree/` matches every path below it, and
+`/tree` itself is redirected to `/tree/` unless it has its own exact pattern. -/
 def Mux.serve (C : Consts) (V : String → Bool) (m : Mux) (raw : RawReq) : MuxResult :=
   match stripPrefix ['/'] raw.urlPath.toList with
   | none => .unmodelled
@@ -589,9 +588,9 @@ def Mux.serve (C : Consts) (V : String → Bool) (m : Mux) (raw : RawReq) : MuxR
     let segs := (splitSlash p).map String.ofList
     if segs.any (fun s => s == "." || s == "..") then .unmodelled
     else if segs.dropLast.any (· == "") then .redirect
-    else if m.patterns.any (fun (pat, subtree) => subtree && pat == segs) then .redirect   -- `/tree` → `/tree/`
-    else if m.patterns.any (fun (pat, subtree) => if subtree then isPrefixSegs pat segs else pat == segs)
-      then .handled (serveHTTP C V m.handler raw)
+    else if m.patterns.any (fun (pat, subtree) => !subtree && pat == segs) then .handled (serveHTTP C V m.handler raw)
+    else if m.patterns.any (fun (pat, subtree) => subtree && pat == segs) then .redirect
+    else if m.patterns.any (fun (pat, subtree) => subtree && isPrefixSegs pat segs) then .handled (serveHTTP C V m.handler raw)
     else .notFound
 
 end Restli.Routing
